@@ -235,7 +235,8 @@ HOSTS2 = LOOKALIKES + ["localhost", "localhost:8080", "a.localhost", "evillocalh
 
 
 def hosts(tier, nlabels):
-    labs = LABELS_T if tier == "thorough" else LABELS
+    # thorough's label alphabet; quick uses it for 1-2 labels and the round-1 alphabet for 3 labels
+    labs = LABELS_T if (tier == "thorough" or nlabels <= 2) else LABELS
     seen = set()
     for t in gen.sequences(labs, nlabels, nlabels):
         base = ".".join(t)
@@ -421,7 +422,8 @@ def run_A(unit, R, tier):
     _k, what, shard, nshards = unit
     if what == "r2":
         return run_A2(unit, R, tier)
-    tls = trusted_lists(tier)
+    # 1-2-label hosts and the literals: every ordered list of <= 3 entries in both tiers
+    tls = trusted_lists("thorough" if what != 3 else tier)
     if what == "lit":
         todo = [(h, None) for h in LITERALS] + [(None, s) for s in SERVERS] + [(None, None)]
         for i, (h, s) in enumerate(todo):
@@ -1398,9 +1400,9 @@ def run_C_long(R, tier, shard=0, nshards=1):
 def units(tier):
     T = tier == "thorough"
     u = [("Cgraph",)] + [("Clong", i, 5) for i in range(5)]          # the unsplittable unit first
-    u += [("A", 1, 0, 1), ("A", "lit", 0, 2), ("A", "lit", 1, 2)]
-    u += [("A", 2, i, 8) for i in range(8)]
-    n3 = 192 if T else 96
+    u += [("A", 1, i, 2) for i in range(2)] + [("A", "lit", i, 4) for i in range(4)]
+    u += [("A", 2, i, 24) for i in range(24)]
+    n3 = 192 if T else 128
     u += [("A", 3, i, n3) for i in range(n3)]
     for evalex in (True, False):
         for pin_on in (True, False):
@@ -1477,7 +1479,7 @@ def finalize(R, tier):
     return {
         "bound": ("hosts <=3 labels x trusted lists <=%s; gate product complete; PIN machine closed graph; "
                   "unmerged sequences <=%s" % ((3, "5 (10 kinds) / 7 (5 kinds)") if tier == "thorough"
-                                                 else ("2 (+3-entry lists over 4 entries)", "4 (11 kinds) / 6 (5 kinds)"))),
+                                                 else ("3 for <=2 labels, 2 for 3 labels", "4 (11 kinds) / 6 (5 kinds)"))),
         "exhaustive": True,
         "closed": True,
         "counter_values_reached": ncounters,
